@@ -2,38 +2,49 @@
 # Must-fail corpus: every mutant (seeded property-breaking change, or a repaired defect put back) must make the
 # quick check of its property report a violation naming the expected obligation. Each mutant is applied to a
 # throw-away copy of /repo's working tree outside /repo and /verif, which is removed afterwards.
-# Usage: selftest/run.sh [property-id|all] [discover]
+# Usage: selftest/run.sh [property-id|all] [discover]        (SELFTEST_JOBS mutants run at a time, default 3)
 cd "$(dirname "$0")/.."
-VERIF="$(pwd)"
+export VERIF="$(pwd)"
 WANT="${1:-all}"
-MODE="${2:-check}"
-REPO="${VERIF_REPO:-/repo}"
-fail=0; n=0
-while IFS=$'\t' read -r name prop dir patch expect; do
-  [ -z "$name" ] && continue
-  case "$name" in \#*) continue;; esac
-  [ "$WANT" != "all" ] && [ "$WANT" != "$prop" ] && continue
+export MODE="${2:-check}"
+export REPO="${VERIF_REPO:-/repo}"
+JOBS="${SELFTEST_JOBS:-3}"
+
+one() {
+  IFS=$'\t' read -r name prop dir patch expect <<< "$1"
   T=$(mktemp -d "${TMPDIR:-/tmp}/govc-selftest.XXXXXX")
   rsync -a --exclude .git "$REPO/" "$T/repo/"
   if [ "$dir" = "revert" ]; then
-    (cd "$T/repo" && patch -R -p1 -s < "$VERIF/selftest/mutants/$patch") >/dev/null 2>&1 || { echo "SELFTEST $name: patch does not apply (skipped)"; rm -rf "$T"; continue; }
+    (cd "$T/repo" && patch -R -p1 -s < "$VERIF/selftest/mutants/$patch") >/dev/null 2>&1 || { echo "SELFTEST-SKIPPED $name ($prop): patch does not apply to the current tree"; rm -rf "$T"; return; }
   else
-    (cd "$T/repo" && patch -p1 -s < "$VERIF/selftest/mutants/$patch") >/dev/null 2>&1 || { echo "SELFTEST $name: patch does not apply (skipped)"; rm -rf "$T"; continue; }
+    (cd "$T/repo" && patch -p1 -s < "$VERIF/selftest/mutants/$patch") >/dev/null 2>&1 || { echo "SELFTEST-SKIPPED $name ($prop): patch does not apply to the current tree"; rm -rf "$T"; return; }
   fi
   out=$(GOVC_NO_RETRY=1 "$VERIF/bin/govc" -repo "$T/repo" -verif "$VERIF" -out "$T/out" -prop "$prop" -tier quick -evidence=false 2>&1); rc=$?
   rm -rf "$T"
-  n=$((n+1))
   if [ "$MODE" = "discover" ]; then
-    echo "== $name ($prop) rc=$rc"; echo "$out" | grep VIOLATION | sed 's/.*obligation=//; s/ status=.*//' | head -6
-    continue
+    echo "== $name ($prop) rc=$rc $(echo "$out" | grep VIOLATION | sed 's/.*obligation=//; s/ status=.*//' | head -6 | tr '\n' ' ')"
+    return
   fi
   if [ $rc -ne 0 ] && echo "$out" | grep VIOLATION | grep -qF "$expect"; then
     echo "SELFTEST $name ($prop): detected by $expect"
   else
-    echo "SELFTEST-FAILED $name ($prop): expected a violation of $expect, got rc=$rc"
-    echo "$out" | grep VIOLATION | cut -c1-200 | head -3
-    fail=1
+    echo "SELFTEST-FAILED $name ($prop): expected a violation of $expect, got rc=$rc $(echo "$out" | grep VIOLATION | cut -c1-200 | head -3 | tr '\n' ' ')"
   fi
-done < "$VERIF/selftest/corpus.tsv"
+}
+export -f one
+
+LIST=$(mktemp "${TMPDIR:-/tmp}/govc-selftest-list.XXXXXX")
+while IFS=$'\t' read -r name prop dir patch expect; do
+  [ -z "$name" ] && continue
+  case "$name" in \#*) continue;; esac
+  [ "$WANT" != "all" ] && [ "$WANT" != "$prop" ] && continue
+  printf '%s\t%s\t%s\t%s\t%s\n' "$name" "$prop" "$dir" "$patch" "$expect"
+done < "$VERIF/selftest/corpus.tsv" > "$LIST"
+n=$(wc -l < "$LIST")
+OUT=$(mktemp "${TMPDIR:-/tmp}/govc-selftest-out.XXXXXX")
+tr '\n' '\0' < "$LIST" | xargs -0 -P "$JOBS" -I{} bash -c 'one "$1"' _ {} | tee "$OUT"
+fail=0
+grep -q "^SELFTEST-FAILED" "$OUT" && fail=1
+rm -f "$LIST" "$OUT"
 echo "selftest: $n mutants, fail=$fail"
 exit $fail
